@@ -69,9 +69,12 @@ func Main(p Prop) {
 	} else {
 		p.Gen(g)
 	}
-	results := execAll(p, g.cases)
+	results := execAll(p, g.cases, r)
 	for i, c := range g.cases {
 		res := results[i]
+		if r.MaxSec > 0 && res.Obs == "skipped" {
+			continue // budgeted run: cases that were not reached are not part of the run
+		}
 		for _, b := range res.Buckets {
 			r.Count(b)
 		}
@@ -174,8 +177,22 @@ func (w *wproc) kill() {
 	w.cmd.Wait()
 }
 
-func execAll(p Prop, cases []string) []Result {
+func execAll(p Prop, cases []string, r *Run) []Result {
 	results := make([]Result, len(cases))
+	// budgeted run: seeded random order, stop handing out cases at the deadline
+	order := make([]int, len(cases))
+	for i := range order {
+		order[i] = i
+	}
+	var deadline time.Time
+	if r != nil && r.MaxSec > 0 && r.ReplayCases == nil {
+		sh := NewRng(r.Seed ^ 0x9e3779b97f4a7c15)
+		for i := len(order) - 1; i > 0; i-- {
+			j := sh.Intn(i + 1)
+			order[i], order[j] = order[j], order[i]
+		}
+		deadline = time.Now().Add(time.Duration(r.MaxSec) * time.Second)
+	}
 	workerEnv = p.WorkerEnv
 	nw := p.Workers
 	if nw <= 0 {
@@ -197,15 +214,15 @@ func execAll(p Prop, cases []string) []Result {
 	take := func() int {
 		mu.Lock()
 		defer mu.Unlock()
-		for next < len(cases) && abnormal >= maxAbnormal {
-			results[next] = Result{Obs: "skipped"}
+		for next < len(cases) && (abnormal >= maxAbnormal || (!deadline.IsZero() && time.Now().After(deadline))) {
+			results[order[next]] = Result{Obs: "skipped"}
 			next++
 		}
 		if next >= len(cases) {
 			return -1
 		}
 		next++
-		return next - 1
+		return order[next-1]
 	}
 	bad := func() {
 		mu.Lock()
